@@ -7,6 +7,7 @@ From Spil Require Import Base.Str Base.Dict Base.Outcome Regex.Re Conf.Conf Conf
   Search.Unfold Search.FindList Search.Finders Search.GlobProofs Search.FindListProofs Search.UnfoldProofs Search.FindersProofs Conf.Routing FS.Fs Data.Data Data.DataSpecProofs.
 From Spil Require Import Base.PyPath Sid.Query Sid.SidProofs Path.UnambiguousDefs Path.UnambiguousProofs Search.GlobProofs
   Search.TreeListDefs Search.TreeListProofs Data.SidLevelDefs Data.SidLevelProofs Data.SidLevelLast.
+From Spil Require Import Search.ConstantsDefs Search.ConstantsLemmas Search.ConstantsProofs Search.ConstantsTree.
 From SpilGen Require Hamlet.
 Import ListNotations.
 Local Open Scope string_scope.
@@ -224,3 +225,48 @@ Proof.
   rewrite forallb_forall in H. exact (H x Hx).
 Qed.
 Print Assumptions C12_instance_membership.
+
+(** ** levels served by configured constants: existence and children are by configuration, whatever the tree *)
+
+(* a concrete Sid at a constants-backed level exists, for EVERY file system *)
+Theorem C12_constants_exists :
+  forall (c : Conf) (Ld : Loaded),
+  load c = Some Ld ->
+  wf_loadedb Ld = true ->
+  forall (Rt : Routing) (F : fs) (x : sid) (id key : string) (values : list string) (pfd : option finder),
+  const_exists_guardb Ld Rt (FConstants id key values pfd) key x = true ->
+  find_all Ld Rt F (s_string x) = Ok [s_string x] /\ sid_exists Ld Rt F x = Ok true.
+Proof. exact constants_existsb. Qed.
+Print Assumptions C12_constants_exists.
+
+(* children at a constants-backed level: the accepted configured values below the Sid (the parent finder is not consulted) *)
+Theorem C12_constants_children :
+  forall (c : Conf) (Ld : Loaded),
+  load c = Some Ld ->
+  wf_loadedb Ld = true ->
+  forall (Rt : Routing) (F : fs) (x q0 : sid) (qs : list sid) (id key : string) (values : list string) (pfd : option finder),
+  is_leaf Ld x = false ->
+  mem_c "*" (s_string x) = false ->
+  mem_c ">" (s_string x) = false ->
+  sid_div Ld x "*" = Ok q0 ->
+  s_string q0 = child_str (s_string x) "*" ->
+  unfold_search Ld (s_string q0) false false = Ok qs ->
+  routed_to Rt (FConstants id key values pfd) qs ->
+  (forall q : sid, In q qs -> s_string q = s_string q0 /\ const_guard Ld key q) ->
+  forallb const_value_okb values = true ->
+  children Ld Rt F x =
+  Ok (dedup_first (flat_map (fun q : sid => expand_below Ld (map fst (s_fields q)) values (s_string x)) qs)).
+Proof. exact constants_children. Qed.
+Print Assumptions C12_constants_children.
+
+Example C12_constants_instance :
+  let x := mk0 "hamlet/a/char/ophelia/model/v009/w" in
+  sid_exists Hamlet.the_loaded Rt0 [] x = Ok true /\
+  children Hamlet.the_loaded Rt0 [] (mk0 "hamlet/a/char/ophelia/model/v009") =
+    Ok ["hamlet/a/char/ophelia/model/v009/w"; "hamlet/a/char/ophelia/model/v009/p"] /\
+  match finder_for Rt0 (s_type x) with
+  | Some (FConstants id key values pfd) => const_exists_guardb Hamlet.the_loaded Rt0 (FConstants id key values pfd) key x
+  | _ => false
+  end = true.
+Proof. vm_compute. repeat split; reflexivity. Qed.
+Print Assumptions C12_constants_instance.
